@@ -38,6 +38,9 @@ func VerifC04Hash() {
 		if err == nil && verifapi.Bool("legacy-recovery-byte") {
 			sig = verifLegacyV(sig)
 		}
+		if err == nil && verifapi.Bool("0x-prefixed-signature") {
+			sig = "0x" + sig // as wallets hand a signature out
+		}
 	} else {
 		sig, err = Sign(verifKey(id), method, id, nonce, arg, extra)
 		if err == nil && verifapi.Bool("compact-signature") {
@@ -193,6 +196,9 @@ func VerifC04Spellings() {
 	} else {
 		id = []string{wallet, "0X" + wallet[2:], "0x" + strings.ToUpper(wallet[2:]), "0x" + strings.ToLower(wallet[2:])}[verifapi.Choose("spelling", 4)]
 		sig, err = AddressRequest{Method: "vipnode_update", Address: id, Nonce: nonce, ExtraArgs: []interface{}{arg}}.Sign(verifKey(wallet))
+		if err == nil && verifapi.Bool("0x-prefixed-signature") {
+			sig = "0x" + sig // as wallets hand a signature out
+		}
 	}
 	if err != nil {
 		verifapi.Unreachable("c04.spellings.sign-error")
